@@ -15,11 +15,15 @@ drops the audience, changes the algorithm, or stops checking `nbf` (the state of
 `fix: SNAP token verifier must enforce the not-before claim`), `snapProfile_generated` no longer
 type-checks and the check reports the broken obligation.  `nbf_unchecked_witness` records what was wrong.
 
-Quantification: all `ParsedToken`s (i.e. all strings whose header segment decodes – anything else is
-refused by `decode_header`, which is the library's), all key configurations, all times `now` with
+Quantification: all `ParsedToken` records - NOT all strings.  A `ParsedToken` is what a reader makes of a
+token string whose header segment decodes (algorithm, kid, "signature segment is base64url", one Ed25519
+verification bit per key, payload as a member list); the map string → `ParsedToken` (splitting at `.`,
+base64url, JSON reading, `decode_header`'s schema) is the libraries' and, on the verification side, about
+200 lines of harness Rust - no theorem mentions it.  All key configurations, all times `now` with
 `leeway ≤ now` and `now + leeway < 2^64` (outside that range the library's `now - leeway` /
 `now + leeway` overflow, `verify_no_panic`).  Ed25519, base64url and JSON reading are parameters of
-`ParsedToken` (`sigOkUnder`, `sigB64`, `payload`), not axioms.
+`ParsedToken` (`sigOkUnder`, `sigB64`, `payload`), not axioms: "an altered payload or signature is refused"
+is `bad_signature_rejected`, whose hypothesis is the bit `sigOkUnder k = false`.
 -/
 namespace ScionVerif.Token
 open ScionVerif.Generated.Token
@@ -185,6 +189,72 @@ theorem lifetime_panic_iff (exp nowNs : Nat) : lifetime exp nowNs = .panic ↔ i
 registered half a second later, one hour before its expiry -/
 example : lifetime 1700003600 1700000000500000000 = .granted 3599500000000 ∧
     1700000000 * expUnitNs ≤ 1700000000500000000 := by decide +kernel
+
+/-! ## 2b. Which string reaches the verifier -/
+
+/-- `extract_bearer_token` hands the verifier exactly the text after the literal prefix: a header value
+yields token `t` iff it is `bearerPrefix ++ t` - nothing is trimmed, no other scheme spelling is accepted -/
+theorem extractBearer_iff (v t : List Char) :
+    extractBearer v = some t ↔ v = bearerPrefix.toList ++ t := by
+  unfold extractBearer
+  constructor
+  · intro h
+    split at h
+    · rename_i hp
+      obtain ⟨r, hr⟩ := List.isPrefixOf_iff_prefix.mp hp
+      simp only [Option.some.injEq] at h
+      rw [← hr, List.drop_left] at h
+      rw [← hr, h]
+    · simp at h
+  · intro h
+    have hp : bearerPrefix.toList.isPrefixOf v = true :=
+      List.isPrefixOf_iff_prefix.mpr ⟨t, h.symm⟩
+    rw [if_pos hp, h, List.drop_left]
+
+/-- the extracted prefix is the RFC 6750 scheme followed by one space -/
+theorem bearerPrefix_generated : bearerPrefix = "Bearer " ∧ middlewareVerifiesExtractedToken = true := by decide
+
+example : extractBearer "Bearer a.b.c".toList = some "a.b.c".toList := by decide
+example : extractBearer "bearer a.b.c".toList = none ∧ extractBearer "Bearer  a".toList = some " a".toList := by decide
+
+/-- **Which JWKS entry is "the JWKS-resolved key"**: the last entry of the served document that
+carries the token's `kid` (`JwksKeyStore::do_fetch` overwrites; entries without `kid` never resolve). -/
+theorem jwks_last_entry_wins (doc : List (Option String × KeyId)) (kid : String) (key : KeyId)
+    (rest : List (Option String × KeyId)) (hrest : ∀ e ∈ rest, e.1 ≠ some kid) (static : KeyId)
+    (ed : KeyId → Bool) :
+    trustedKey { static := static, jwks := some (storeOfDocument (doc ++ (some kid, key) :: rest)), edKey := ed }
+      (some kid) = some key := by
+  have hnone : ∀ (l : List (Option String × KeyId)), (∀ e ∈ l, e.1 ≠ some kid) →
+      ∀ tl : List (String × KeyId),
+      List.lookup kid ((l.filterMap docEntry).reverse ++ tl) = List.lookup kid tl := by
+    intro l
+    induction l with
+    | nil => intro _ tl; simp
+    | cons e l ih =>
+      intro h tl
+      have he := h e (by simp)
+      have hl : ∀ e' ∈ l, e'.1 ≠ some kid := fun e' he' => h e' (by simp [he'])
+      obtain ⟨k, v⟩ := e
+      cases k with
+      | none =>
+        have hd : docEntry (none, v) = none := rfl
+        rw [List.filterMap_cons_none hd]
+        exact ih hl tl
+      | some k' =>
+        have hd : docEntry (some k', v) = some (k', v) := rfl
+        have hk : (kid == k') = false := by
+          simp only [beq_eq_false_iff_ne, ne_eq]
+          intro hh; exact he (by simp [hh])
+        rw [List.filterMap_cons_some hd, List.reverse_cons, List.append_assoc, List.singleton_append,
+          ih hl, List.lookup_cons, hk]
+  have hd : docEntry (some kid, key) = some (kid, key) := rfl
+  show List.lookup kid (storeOfDocument (doc ++ (some kid, key) :: rest)) = some key
+  unfold storeOfDocument
+  rw [List.filterMap_append, List.filterMap_cons_some hd, List.reverse_append, List.reverse_cons,
+    List.append_assoc, hnone rest hrest, List.singleton_append, List.lookup_cons]
+  simp
+
+example : storeOfDocument [(some "a", 1), (none, 5), (some "a", 2)] = [("a", 2), ("a", 1)] := by decide
 
 /-! ## 3. Per-clause corollaries ("any other string … is refused") -/
 
